@@ -15,7 +15,7 @@ import vcommon as vc
 PID = "C10"
 PAYLOADS = [None, 14.5, 17, -9223372036854775808, 18446744073709551615, "NaN", "Infinity", "", "x", True, [], {},
             [1, "NaN", None, {"a": []}], {"a": {"b": {"c": [1.5, "-Infinity", None]}}, "type": "zzz", "1": 1}, 1e300, -0.0,
-            "AQID", [[[[]]]], {"": None},
+            "AQID", [[[[]]]], {"": None}, {"007": 1, "1.50": 2, "inf": 3, "01": 4, "1": 5, "true": 6, "-0": 7, "1e3": 8}, [{"NaN": {"+1": "x"}}],
             # doubles that are exactly representable in 32 bits but have a long 64-bit decimal, alone and nested (mid-range
             # exponents only: serde_json without float_roundtrip may parse 17-digit numbers at extreme exponents 1 ulp off)
             0.10000000149011612, 2.000000238418579, [0.30000001192092896, {"x": 0.699999988079071}], {"f": 1.100000023841858}]
@@ -156,6 +156,10 @@ def union_enum_replay(pid, tier, seed, out, rng):
         rep = {"kind": kind, "cfg": tag, "doc": doc, "ref": c["ref"], "members": c.get("members")}
         if "skip" in obs:
             raise vc.ToolError("Shape/Color missing from the zoo")
+        va = obs.get("via_any") or {}
+        if va.get("agree") is False and (obs.get("client") or {}).get("ok"):
+            out.violation("%s:%s:via-any" % (pid, kind), "%s viewed through the dynamic `any` gives %s, direct parsing gives %s" % (
+                doc[:70], str(va.get("text") or va.get("err"))[:70], obs["client"]["ok"][:70]), rep)
         if kind == "union":
             got = judge_union(pid, c["members"], ex, doc, obs, c["ref"], out, rep)
             if got is not None and c.get("mech") and got == (c["ref"] != "reject") and got != (c["mech"] != "reject"):
